@@ -90,7 +90,9 @@ pub fn compare(h: &Hello, o: &Obs) -> Vec<(String, String)> {
         out.push(("field-version".into(), format!("expected {} got {}", version_code(h), o.version)));
     }
     let sni = h.exts.iter().find_map(|e| if let Ext::Sni(s) = e { Some(s.clone()) } else { None });
-    if o.sni != sni {
+    // (a server_name list written byte by byte - entries of a name type other than host_name - only has to set the flag)
+    let raw_sni_list = h.exts.iter().any(|e| matches!(e, Ext::Other(0, _)));
+    if o.sni != sni && !raw_sni_list {
         out.push(("field-sni".into(), format!("expected {sni:?} got {:?}", o.sni)));
     }
     let alpn = h.exts.iter().find_map(|e| if let Ext::Alpn(p) = e { p.first().cloned() } else { None });
@@ -329,6 +331,19 @@ pub fn families(thorough: bool) -> Vec<Hello> {
     for el in &ext_lists {
         for (sid, compression, record_version) in [(32usize, vec![0u8], 0x0301u16), (0, vec![1, 0], 0x0303)] {
             v.push(Hello { record_version, legacy: 0x0303, ciphers: vec![0x1301, 0x2a2a, 0xc02f], exts: el.clone(), sid, compression });
+        }
+    }
+    // server_name extensions whose list holds an entry of another name type (RFC 6066 leaves 1..255 to future use, each with
+    // a 16-bit length): the flag says "the extension is there"
+    for name_type in [1u8, 2, 0x7f, 0xff] {
+        for second_host_name in [false, true] {
+            let entry = |t: u8, n: &[u8]| [vec![t], (n.len() as u16).to_be_bytes().to_vec(), n.to_vec()].concat();
+            let mut list = entry(name_type, b"a.example");
+            if second_host_name {
+                list.extend(entry(0, b"b.example"));
+            }
+            let body = [(list.len() as u16).to_be_bytes().to_vec(), list].concat();
+            v.push(Hello { exts: vec![Ext::Other(0, body), Ext::SupVer(vec![0x0304]), Ext::SigAlgs(vec![0x0403])], ..Hello::default() });
         }
     }
     // F3: signature-algorithm orders with GREASE inside x ALPN lists x SNI presence
